@@ -386,6 +386,131 @@ fn run_mt(c: &MtCase) -> Outcome {
 	o
 }
 
+// ---------------------------------------------------------------- long bursts: the k-th closure sends the priority control
+
+#[derive(Clone, Debug, Serialize, Deserialize)]
+pub struct LongCase {
+	pub n: u16,
+	/// 1-based index of the closure that sends the priority control from inside the job task
+	pub k: u16,
+	/// true: delete_now (urgent), false: to_wait (high)
+	pub urgent: bool,
+	/// queue the closures while the task is busy in a gate (true) or send them to an idle task (false)
+	pub gated: bool,
+}
+
+fn run_long(c: &LongCase) -> Outcome {
+	use std::sync::atomic::{AtomicUsize, Ordering};
+	let mut o = Outcome::pass();
+	let n = usize::from(c.n.max(2));
+	let k = usize::from(c.k).clamp(1, n - 1);
+	o.nontrivial = n >= 100;
+	if k >= 120 {
+		o.label("k>=120");
+	}
+	let rt = tokio::runtime::Builder::new_current_thread().enable_all().start_paused(true).build().unwrap();
+	let res: Result<(usize, Option<bool>, bool), String> = rt.block_on(async {
+		let (job, task) = start_job(Arc::new(Command {
+			program: Program::Exec { prog: "/bin/true".into(), args: vec![] },
+			options: SpawnOptions::default(),
+		}));
+		let ran = Arc::new(AtomicUsize::new(0));
+		// what closure k+1 saw: was the to_wait ticket sent by closure k already resolved?
+		let seen_resolved: Arc<Mutex<Option<bool>>> = Arc::new(Mutex::new(None));
+		let wait_ticket: Arc<Mutex<Option<watchexec_supervisor::job::Ticket>>> = Arc::new(Mutex::new(None));
+		let (gate_s, gate_r) = tokio::sync::oneshot::channel::<()>();
+		if c.gated {
+			job.run_async(move |_| {
+				Box::new(async move {
+					let _ = gate_r.await;
+				})
+			});
+			tokio::time::sleep(std::time::Duration::from_millis(5)).await;
+		}
+		let mut last = None;
+		for i in 1..=n {
+			let ran = ran.clone();
+			let job2 = job.clone();
+			let urgent = c.urgent;
+			let seen_resolved = seen_resolved.clone();
+			let wait_ticket = wait_ticket.clone();
+			last = Some(job.run(move |_| {
+				ran.fetch_add(1, Ordering::SeqCst);
+				if i == k {
+					if urgent {
+						drop(job2.delete_now());
+					} else {
+						*wait_ticket.lock().unwrap() = Some(job2.to_wait());
+					}
+				} else if i == k + 1 && !urgent {
+					if let Some(t) = wait_ticket.lock().unwrap().take() {
+						use futures::FutureExt;
+						*seen_resolved.lock().unwrap() = Some(t.now_or_never().is_some());
+					}
+				}
+			}));
+		}
+		if c.gated {
+			let _ = gate_s.send(());
+		}
+		let done = if c.urgent {
+			tokio::time::timeout(std::time::Duration::from_secs(30), task).await.is_ok()
+		} else {
+			let ok = tokio::time::timeout(std::time::Duration::from_secs(30), last.unwrap()).await.is_ok();
+			job.delete_now().await;
+			let _ = task.await;
+			ok
+		};
+		let sr = *seen_resolved.lock().unwrap();
+		Ok((ran.load(Ordering::SeqCst), sr, done))
+	});
+	let (ran, seen_resolved, done) = match res {
+		Ok(x) => x,
+		Err(e) => {
+			o.fail("harness:long-burst", e);
+			return o;
+		}
+	};
+	if !done {
+		o.fail("long-burst:did-not-finish", format!("the job did not get through the burst in 30 s of virtual time (ran {ran})\ncase {c:?}"));
+		return o;
+	}
+	if c.urgent {
+		// delete_now sent by closure k while closures k+1..n are pending: none of them may run
+		if ran != k {
+			o.fail(
+				"urgent-did-not-overtake-normal",
+				format!("closure {k} of {n} sent delete_now from inside the job task; {ran} closures ran, expected exactly {k} (the urgent control must run before every pending normal one)\ncase {c:?}"),
+			);
+		}
+	} else {
+		if ran != n {
+			o.fail("long-burst:closure-lost", format!("{ran} of {n} closures ran\ncase {c:?}"));
+			return o;
+		}
+		// to_wait on a job that runs nothing resolves as soon as it is executed; it is high priority, so it must
+		// have been executed before the next pending normal closure
+		if seen_resolved != Some(true) {
+			o.fail(
+				"high-did-not-overtake-normal",
+				format!("closure {k} of {n} sent to_wait from inside the job task; closure {} found its ticket resolved: {seen_resolved:?}\ncase {c:?}", k + 1),
+			);
+		}
+	}
+	o
+}
+
+fn long_strategy() -> BoxedStrategy<LongCase> {
+	// positions around powers of two get extra weight (batching / budget boundaries of the runtime)
+	let k = prop_oneof![
+		2 => 1u16..400,
+		3 => (5u32..9, 0u16..5).prop_map(|(j, d)| ((1u16 << j) + d).saturating_sub(2)),
+	];
+	(k, 2u16..60, any::<bool>(), proptest::bool::weighted(0.8))
+		.prop_map(|(k, extra, urgent, gated)| LongCase { n: k + extra, k, urgent, gated })
+		.boxed()
+}
+
 pub fn check(e: &Engine) {
 	e.assume("urgent-before-high has no API-visible consequence (a to_wait ticket resolves at the same instant either way) and is not asserted");
 	e.assume("cross-priority order is asserted only for controls pending while the job task is busy (gated bursts), as the property states; a task parked in select! picks its first control at random");
@@ -399,6 +524,16 @@ pub fn check(e: &Engine) {
 		&run,
 	);
 	e.require_label("ordering", "2+priorities", 0.5);
+	e.explore(
+		"long-burst",
+		LegOpts::det(
+			e.tier.pick(600, 12_000),
+			"3-460 run closures queued (80% while the task is busy in a gate), the k-th of which (k uniform, or within 2 of a power of two from 32 to 256) itself sends delete_now or to_wait from inside the job task: after delete_now exactly k closures have run; after to_wait closure k+1 finds the ticket resolved; non-trivial = 100 or more closures",
+		),
+		&long_strategy,
+		&run_long,
+	);
+	e.require_label("long-burst", "k>=120", 0.3);
 	e.explore(
 		"concurrent-senders",
 		LegOpts {
